@@ -23,7 +23,7 @@ func project(body hcl.Body, schema *hcl.BodySchema) (string, bool) {
 	content, diags := body.Content(schema)
 	var attrs []string
 	for name, a := range content.Attributes {
-		v, d := a.Expr.Value(nil)
+		v, d := a.Expr.Value(dec.Ctx())
 		if d.HasErrors() {
 			attrs = append(attrs, name+"=<err>")
 		} else {
@@ -87,7 +87,7 @@ func Handle(c *core.Check, st core.State) {
 	schema := hcldec.ImpliedSchema(spec)
 	var nval cty.Value
 	var ndiags hcl.Diagnostics
-	if rec, p := core.Guard(func() { nval, ndiags = hcldec.Decode(nf.Body, spec, nil) }); p {
+	if rec, p := core.Guard(func() { nval, ndiags = hcldec.Decode(nf.Body, spec, dec.Ctx()) }); p {
 		// C08 owns panics of the native path; nothing to compare
 		_ = rec
 		c.Count("native_panic_skipped", 1)
@@ -138,7 +138,7 @@ func compareJSON(c *core.Check, sn *dec.SpecNode, spec hcldec.Spec, schema *hcl.
 	}
 	var jval cty.Value
 	var jdiags hcl.Diagnostics
-	if rec, p := core.Guard(func() { jval, jdiags = hcldec.Decode(jf.Body, spec, nil) }); p {
+	if rec, p := core.Guard(func() { jval, jdiags = hcldec.Decode(jf.Body, spec, dec.Ctx()) }); p {
 		c.Violation("panic/json/"+sn.K, fmt.Sprintf("%s: Decode of the JSON form %s panicked: %v", desc, js, rec), vec)
 		return false
 	}
@@ -201,7 +201,7 @@ func HandleEnc(c *core.Check, st core.State) {
 	}
 	schema := hcldec.ImpliedSchema(spec)
 	var nat nativeSide
-	if _, p := core.Guard(func() { nat.val, nat.diags = hcldec.Decode(nf.Body, spec, nil) }); p {
+	if _, p := core.Guard(func() { nat.val, nat.diags = hcldec.Decode(nf.Body, spec, dec.Ctx()) }); p {
 		c.Count("native_panic_skipped", 1)
 		return
 	}
